@@ -298,6 +298,7 @@ def gen_placed(ctx):
     short = list(range(0, 49 if quick else 81))
     nul_grid("ustr_bytes", short, lambda: ALL16)
     nul_grid("ustr_bytes", BOUNDARY_LENS, lambda: ALL16, dense=0, edge=24, mid=16)
+    nul_grid("ustr_bytes", [130, 301], lambda: ALL16, dense=0, edge=72, mid=8)          # head/tail windows of 32-byte-wide scans
     nul_grid("ustr_bytes", PATH_MAX_LENS, lambda: [r.below(16) for _ in range(4)], dense=0, edge=20 if quick else 48, mid=4)
     sec_short = list(range(0, 25 if quick else 49)) + [31, 32, 33, 40]
     for op in ["ustr_str", "ustring_bytes", "ustring_str", "const", "dname"]:
@@ -401,7 +402,7 @@ def run(ctx):
                 "of raw strings of length <= 3 (4) over {a,/,NUL} and of terminated strings over {a,/,0xff}, unix_lit! table, random "
                 "strings up to 5000 bytes with a NUL planted at the end / inside / doubled; PLACED stream (`at <n>`): operands are "
                 "sub-slices at chosen start addresses mod 16 between chosen surrounding bytes — try_from_bytes at all 16 alignments x every "
-                "length 0..48 (thorough 80) and 63..65/127..129/254..257/300 (+ 4 alignments x 4095..4097) x {no NUL, one NUL at every "
+                "length 0..48 (thorough 80) and 63..65/127..130/254..257/300/301 (+ 4 alignments x 4095..4097) x {no NUL, one NUL at every "
                 "position, that NUL plus a terminator}; the other borrowed/owned/const/d_name entry points on a mod-8-covering alignment "
                 "set x lengths 0..24,31..33,40,64,255..257 likewise; parent/file_name/own/join/join_fmt on paths around one component of "
                 "1..4097 bytes; distinct_nontrivial = distinct (operation, outcome kind, operand lengths capped at 3 or flagged >= 255, "
